@@ -248,14 +248,14 @@ S(id="S.fmt", props=["C15", "C12"], mode="S", static="fmt", spec="", harness="",
 
 # ---------------- C11: description intermediate form ----------------
 DESC = dict(spec="desc.spec.c", dfcc=False, instr=["--drop-unused-functions"])
-S(id="D.codes", props=["C11"], harness="h_codes", mode="B", unwind_all={"quick": 5, "thorough": 6}, rec_unwind=5, params={"quick": {"NR": 3}, "thorough": {"NR": 4}},
+S(id="D.codes", props=["C11"], harness="h_codes", mode="B", unwind_all={"quick": 102, "thorough": 102}, rec_unwind=5, timeout=1200, params={"quick": {"NR": 3}, "thorough": {"NR": 4}},
   bound="<= 3 (thorough 4) records over a two-name universe, codes -1 (implicit) or 0..300", functions=["set_sgrammar (tail, rule R4)", "sterm_name_cmp", "sterm_num_cmp"],
   what="one record per name is left; implicit codes are >= 256, distinct and increase in order of first appearance; a name declared repeatedly with the same explicit code keeps it",
   assumes=["A2: qsort model (insertion sort); the region starts with code == 256 (static fact from R4: initialiser 256, no assignment before the region)"], **DESC)
-S(id="D.codes.conflict", props=["C11"], harness="h_codes_conflict", mode="B", unwind_all=5, rec_unwind=5, params={"quick": {"NR": 3}}, timeout=600,
+S(id="D.codes.conflict", props=["C11"], harness="h_codes_conflict", mode="B", unwind_all=102, rec_unwind=5, params={"quick": {"NR": 3}}, timeout=600,
   bound="two records", functions=["set_sgrammar (tail, rule R4)"], what="same name with two different explicit codes is reported as YAEP_REPEATED_TERM_CODE", **DESC)
-S(id="UB.msg.arg", props=["C12", "C11"], harness="h_codes_longname", mode="B", unwind_all=260, rec_unwind=5, params={"quick": {"NR": 3}}, timeout=900,
-  bound="symbol names of 1..140 characters", functions=["set_sgrammar (tail, rule R4)"],
+S(id="UB.msg.arg", props=["C12", "C11"], harness="h_codes_longname", mode="B", unwind_all=125, rec_unwind=5, params={"quick": {"NR": 3}}, timeout=1500,
+  bound="symbol names of 1..120 characters (the local buffer holds 100)", functions=["set_sgrammar (tail, rule R4)"],
   what="the name copied into the local buffer for the 'described repeatedly with different code' message is NUL-terminated however long the name is", **DESC)
 S(id="D.replay.term", props=["C11"], harness="h_sread_terminal", mode="L", canaries=2, functions=["sread_terminal"], what="record i delivered unchanged, NULL after the last", **DESC)
 S(id="D.replay.rule", props=["C11"], harness="h_sread_rule", mode="L", canaries=2, functions=["sread_rule"], what="rule i delivered unchanged, NULL after the last", **DESC)
@@ -284,6 +284,7 @@ S(id="T.free.nested", props=["C13"], harness="h_free_tree_nested", canaries=2, f
 # ---------------- C12: terminal sets ----------------
 for nm, fn, lp in [("up", "term_set_up", 0), ("test", "term_set_test", 0), ("clear", "term_set_clear", 1), ("copy", "term_set_copy", 1), ("or", "term_set_or", 1)]:
     S(id="UB.tset." + nm, props=["C12"], spec="tset.spec.c", harness="h_tset_" + nm, mode="U" if lp else "L", loops=bool(lp), n_loops=lp,
+      tier="thorough" if nm in ("copy", "or") else "quick",
       enforce=["%s/tset_%s_c" % (fn, nm)], params={"quick": {"CAPT": 64 if lp else 4096}, "thorough": {"CAPT": 512 if lp else 100000}}, functions=[fn], timeout=1200,
       what="%s: word accesses inside the set of ((n_terms+63)/64) words, no shift/sign overflow, effect stated over an arbitrary word (ghost index)" % fn)
 S(id="G.ctx", props=["C14", "C12"], spec="parse.spec.c", harness="h_build_start_set", mode="B", dfcc=True, enforce=["build_start_set/build_start_set_c"],
@@ -297,9 +298,22 @@ S(id="G.ctx", props=["C14", "C12"], spec="parse.spec.c", harness="h_build_start_
 
 # sets still being brought up: not part of any tier until they are green on the unchanged tree (run with --sets <id>)
 for _s in SETS:
-    if _s["id"] in ("TOK.vec", "D.codes", "D.codes.conflict", "UB.msg.arg", "T.free.flat", "T.free.nested", "UB.tset.or"):
+    if _s["id"] in ("TOK.vec", "D.codes", "D.codes.conflict", "UB.msg.arg", "T.free.flat", "T.free.nested"):
         _s["disabled"] = "work in progress"
 S(id="T.anode_reset", props=["C13", "C14"], spec="parse.spec.c", harness="h_parse_init", mode="B", dfcc=True,
   replace=["sit_init/sit_init_c", "set_init/set_init_c", "core_symb_vect_init/core_symb_vect_init_c"], unwind_all=5,
   bound="grammars with <= 3 rules (list walk unwound)", functions=["yaep_parse_init"],
   what="every rule's caller_anode is NULL when a parse starts (abstract-node names are allocated per parse, never shared between trees of different parses)")
+
+# ---------------- C19: hash table contents as an inductive invariant (bounded) ----------------
+HTABS = dict(spec="htabs.spec.c", mode="B", dfcc=False, instr=["--drop-unused-functions"], params={"quick": {"SIZE": 7}, "thorough": {"SIZE": 11}},
+             unwind_all={"quick": 9, "thorough": 13}, rec_unwind=2, timeout=1500, mem=40,
+             bound="tables of 7 (thorough 11) slots, 4-key universe, arbitrary hash function; inductive, so histories of any length on a table of that size",
+             functions=["find_hash_table_entry", "remove_element_from_hash_table_entry", "empty_hash_table", "hash_table_elements_number"])
+S(id="HT.abs.find", props=["C19"], harness="h_abs_find", canaries=3, what="search / reserve+fill from an ARBITRARY well-formed table: find hits iff the key is in the abstract set, an absent key yields an EMPTY slot, "
+  "well-formedness and the abstract set are maintained (deleted slots are re-used correctly)", **HTABS)
+S(id="HT.abs.remove", props=["C19"], harness="h_abs_remove", what="removal from an arbitrary well-formed table: exactly that key disappears, well-formedness kept", **HTABS)
+S(id="HT.abs.empty", props=["C19"], harness="h_abs_empty", what="emptying an arbitrary well-formed table leaves no element", **HTABS)
+for _s in SETS:
+    if _s["id"].startswith("HT.abs."):
+        _s["disabled"] = "work in progress"
